@@ -123,14 +123,19 @@ def skeleton(shape):
 
 # ---- batching heuristic (NOT a verdict): which scenarios probably violate which predicate, so that
 # TLC is asked about clean scenarios in one batch and about one representative per violation class.
-def triage(scen):
+def triage_all(scen):
+    """all (predicate, class) pairs that fail at the first step where anything fails (else [])."""
     sc = scen[0]
     grp, exp, expsub = sc["grp"], sc["exp"], sc["expsub"]
     done, dirty = set(), set()
     fq, fn = set(), set()
     prev = None
+    DER = ("name", "min", "prio", "preempt", "sub", "owner", "topo")
     for ev in scen[1:]:
+        out = []
         groups, pods = ev["groups"], ev["pods"]
+        if ev.get("err"):
+            out.append(("D_NoError", "error"))
         if ev["ev"] == "Foreign":
             dirty.add(ev["g"])
             if ev["f"] == "queue":
@@ -143,44 +148,56 @@ def triage(scen):
             idem = p in done and g not in dirty
             if prev is not None:
                 for gi, old in enumerate(prev["groups"]):
-                    if old["ex"] and any(old[k] != groups[gi][k] for k in ("queue", "mark", "backoff", "nodepool")) or (old["ex"] and not groups[gi]["ex"]):
-                        return ("C18_ForeignPreservedTrace", "foreign-field-overwritten")
+                    if old["ex"] and (not groups[gi]["ex"] or any(old[k] != groups[gi][k] for k in ("queue", "mark", "backoff", "nodepool"))):
+                        bad = [k for k in ("queue", "mark", "backoff", "nodepool") if groups[gi]["ex"] and old[k] != groups[gi][k]] or ["podgroup-gone"]
+                        out.append(("C18_ForeignPreservedTrace", "foreign-field-overwritten-" + "+".join(bad)))
+                        break
             if idem and ev["wpg"] + ev["wpod"] + ev["wother"] > 0:
                 same = prev is not None and prev["groups"] == groups and prev["pods"] == pods
-                if ev["wpg"] > 0 and ev["wpod"] == 0 and ev["wother"] == 0 and same:
-                    return ("C18_Idempotent", "noop-podgroup-update")
-                strip = lambda gs: [{k: v for k, v in g.items() if k != "meta"} for g in gs]
-                if ev["wpg"] > 0 and ev["wpod"] == 0 and ev["wother"] == 0 and prev is not None and strip(prev["groups"]) == strip(groups) \
-                        and any("pod-group-name=" in g["meta"] for g in groups):
-                    return ("C18_Idempotent", "pod-group-name-annotation-copied-to-podgroup-on-repeat")
-                return ("C18_Idempotent", "writes-on-repeat")
+                strip = lambda gs: [{k: v for k, v in x.items() if k != "meta"} for x in gs]
+                only_pg = ev["wpg"] > 0 and ev["wpod"] == 0 and ev["wother"] == 0
+                if only_pg and same:
+                    out.append(("C18_Idempotent", "noop-podgroup-update"))
+                elif only_pg and prev is not None and strip(prev["groups"]) == strip(groups) and any("pod-group-name=" in x["meta"] for x in groups):
+                    out.append(("C18_Idempotent", "pod-group-name-annotation-copied-to-podgroup-on-repeat"))
+                else:
+                    out.append(("C18_Idempotent", "writes-on-repeat"))
             done.add(p)
             dirty.discard(g)
-        if ev.get("err"):
-            return ("D_NoError", "error")
         if ev["extra"] != 0:
-            return ("C18_Deterministic", "undocumented-podgroup")
-        for gi, gr in enumerate(groups):
-            if gr["ex"]:
-                e = exp[gi]
-                if any(gr[k] != e[k] for k in ("name", "min", "prio", "preempt", "sub", "owner", "topo")):
-                    bad = [k for k in ("name", "min", "prio", "preempt", "sub", "owner", "topo") if gr[k] != e[k]]
-                    return ("C18_Deterministic", "derived-" + "+".join(bad))
-                if (gi + 1) not in fq and gr["queue"] != e["queue"]:
-                    return ("C18_Deterministic", "derived-queue")
-                if (gi + 1) not in fn and gr["nodepool"] != e["nodepool"]:
-                    return ("C18_Deterministic", "derived-nodepool")
-        for p in done:
-            if pods[p - 1]["sub"] != expsub[p - 1]:
-                return ("C18_Deterministic", "subgroup-label")
+            out.append(("C18_Deterministic", "undocumented-podgroup"))
+        else:
+            for gi, gr in enumerate(groups):
+                if gr["ex"]:
+                    e = exp[gi]
+                    bad = [k for k in DER if gr[k] != e[k]]
+                    if (gi + 1) not in fq and gr["queue"] != e["queue"]:
+                        bad.append("queue")
+                    if (gi + 1) not in fn and gr["nodepool"] != e["nodepool"]:
+                        bad.append("nodepool")
+                    if bad:
+                        out.append(("C18_Deterministic", "derived-" + "+".join(bad)))
+                        break
+            else:
+                if any(pods[p - 1]["sub"] != expsub[p - 1] for p in done):
+                    out.append(("C18_Deterministic", "subgroup-label"))
+        for p in sorted(done):
             g = grp[p - 1]
             if not pods[p - 1]["ann"] or not groups[g - 1]["ex"] or groups[g - 1]["name"] != pods[p - 1]["ann"]:
-                return ("C18_SameGroup", "annotation")
-            for q in done:
-                if (pods[p - 1]["ann"] == pods[q - 1]["ann"]) != (grp[p - 1] == grp[q - 1]):
-                    return ("C18_SameGroup", "siblings")
+                out.append(("C18_SameGroup", "annotation-does-not-name-the-documented-podgroup"))
+                break
+            if any((pods[p - 1]["ann"] == pods[q - 1]["ann"]) != (grp[p - 1] == grp[q - 1]) for q in done):
+                out.append(("C18_SameGroup", "siblings-grouped-differently-than-documented"))
+                break
+        if out:
+            return out
         prev = ev
-    return None
+    return []
+
+
+def triage(scen):
+    t = triage_all(scen)
+    return t[0] if t else None
 
 
 class SigCtx:
@@ -198,8 +215,8 @@ class SigCtx:
         inv = replay_obj.get("invariant", signature.split(" ")[0])
         scen = replay_obj.get("trace", [])
         at = replay_obj.get("at_event")
-        t = triage(scen[:at] if at else scen) if scen else None
-        cls = t[1] if t and t[0] == inv else "unclassified"
+        ts = triage_all(scen[:at] if at else scen) if scen else []
+        cls = next((c for (i, c) in ts if i == inv), "unclassified")
         kinds = sorted(self._affected.get((inv, cls), []))
         sig = "%s %s" % (inv, cls)
         if kinds:
